@@ -143,6 +143,9 @@ func builtinStringLastIndexOf(call FunctionCall) Value {
 	if 0 > start.int64 {
 		start.int64 = 0
 	}
+	if start.int64 > int64(length) {
+		start.int64 = int64(length)
+	}
 	end := int(start.int64) + len(target)
 	if end > length {
 		end = length
